@@ -124,3 +124,8 @@ func VerifCalcScaleUpDelta(nodes []*v1.Node, cpuPercent, memPercent float64, cpu
 		memCapacity: cachedMem,
 	})
 }
+
+// VerifSetStopChan replaces the stop channel so that a harness can end RunForever.
+func (c *Controller) VerifSetStopChan(stop <-chan struct{}) {
+	c.stopChan = stop
+}
